@@ -130,7 +130,7 @@ Proof.
   - intros H. unfold m_read. rewrite (get_put_other _ _ _ _ H). destruct (get_entry y s) as [e'|]; [|reflexivity].
     destruct (flat_index (edims e') j 0); reflexivity.
   - intros e0 k0 k' [= <-] Hk0 Hk' Hne. rewrite Hk in Hk0. injection Hk0 as <-. unfold m_read. rewrite (get_put_same _ _ _ _ Hg), Hg. cbn [edims evals].
-    rewrite Hk'. cbn [fst]. apply nth_set_nth_other. exact Hne.
+    rewrite Hk'. cbn [fst]. f_equal. apply nth_set_nth_other. exact Hne.
 Qed.
 
 (* a negative value stored to an unsigned target becomes 0 *)
@@ -161,14 +161,14 @@ Lemma out_of_range_is_error_l t v : in_range t v = false -> (uns t = false \/ 0 
       m_write x idx v s = (Fail ERange, s)) /\
   (forall sta cst x s, m_declare sta cst t x [] [v] s = (Fail ERange, s)) /\
   (forall sta cst x dims vs s, In v vs -> m_declare sta cst t x dims vs s = (Fail ERange, s)) /\
-  (forall c, call_result (Some t) (Ret (Some v)) = Fail ERange \/ c = tt) /\
+  call_result (Some t) (Ret (Some v)) = Fail ERange /\
   (forall p s, pty p = t -> lift (coerce (pty p) v) s = (@Fail Z ERange, s)).
 Proof.
   intros Hr Hu. pose proof (out_of_range_coerce_l _ _ Hr Hu) as Hc. repeat split.
   - intros x idx s e k Hg <- Hcst Hk. unfold m_write. rewrite Hg, Hcst, Hk, Hc. reflexivity.
   - intros. unfold m_declare. cbn [coerce_all]. rewrite Hc. reflexivity.
   - intros sta cst x dims vs s Hin. unfold m_declare. rewrite (coerce_all_rejects _ _ _ Hin Hc). reflexivity.
-  - intros c. left. cbn [call_result]. exact Hc.
+  - cbn [call_result]. exact Hc.
   - intros p s <-. unfold lift. rewrite Hc. reflexivity.
 Qed.
 
